@@ -1109,7 +1109,7 @@ coap_pdu_parse_header(coap_pdu_t *pdu, coap_proto_t proto) {
 }
 
 static int
-coap_pdu_parse_opt_csm(coap_pdu_t *pdu, uint16_t len) {
+coap_pdu_parse_opt_csm(coap_pdu_t *pdu, uint32_t len) {
   switch ((coap_pdu_signaling_proto_t)pdu->code) {
   case COAP_SIGNALING_CSM:
     switch (pdu->max_opt) {
@@ -1177,7 +1177,7 @@ bad:
 }
 
 static int
-coap_pdu_parse_opt_base(coap_pdu_t *pdu, uint16_t len) {
+coap_pdu_parse_opt_base(coap_pdu_t *pdu, uint32_t len) {
   int res = 1;
 
   switch (pdu->max_opt) {
